@@ -43,7 +43,11 @@ def check_full_iteration(ctx, rule: str, f: FuncInfo, suffix: str, what: str, al
         if isinstance(tg, ast.Tuple) and tg.elts:
             tg = tg.elts[-1]
         v = dotted_of(tg) or "?"
-        allowed = {t.format(v=v) for t in allowed_skip_tests}
+        aliases = {v}
+        for a in ast.walk(loop):
+            if isinstance(a, ast.Assign) and len(a.targets) == 1 and isinstance(a.targets[0], ast.Name) and isinstance(a.value, ast.Name) and a.value.id in aliases:
+                aliases.add(a.targets[0].id)
+        allowed = {t.format(v=x) for t in allowed_skip_tests for x in aliases}
         for sk in [x for x in ast.walk(loop) if isinstance(x, (ast.Continue, ast.Break))]:
             # innermost loop of the skip must be this loop
             cur: ast.AST = sk
